@@ -28,14 +28,15 @@ MANIFEST = {
             "the requested hash type; the consensus specification accepts the model's solutions under the full standard flag set given ECDSA-verify of the right "
             "digest; partial multisig signing is order independent; nothing but the script and witness of the chosen inputs changes. The symbolic-execution "
             "machinery of the solver is tied to the model by byte-for-byte equality of what tx.sign writes (RFC 6979 makes signatures deterministic).",
-    "note": "Parameters supplied to the model by the harness from pycoin itself: the signature hash of each input (C04) and whether an input already validates "
-            "under the default flags (C03). ECDSA unforgeability (the placeholder signature does not verify) is an explicit hypothesis.",
+    "note": "The signature hash is computed inside the model by C04's Model/Sighash.lean (the digests pycoin computes are sent along and cross-checked); DER and SEC "
+            "encodings are C10's models. Supplied by the harness from pycoin: whether an input already validates under the default flags (C03). ECDSA "
+            "unforgeability (the placeholder signature does not verify) is an explicit hypothesis.",
     "technique": "Lean 4 proof over an executable model + differential correspondence model vs implementation (exact bytes) + validation oracles on the implementation",
 }
 RULE = ("ops c05_sign_tx (one or several signing passes over a transaction mixing the standard templates), c05_sign_solver, c05_der, c05_lax, c05_sec, "
         "c05_keychain; boundary corpus (every template x key form x hash type x coin, subsets incl. the empty one, m-of-n at the size limits) + seeded random; "
         "distinct = distinct op line; trivial = ops that sign nothing")
-ASSUMPTIONS = ["the signature hash handed to the model is the one pycoin computes (tied to the consensus definition by C04)",
+ASSUMPTIONS = ["the signature hash is C04's model (Model/Sighash.lean); the driver answers DigestMismatch when it differs from what pycoin computed",
                "whether an input is already valid under the default flags is taken from pycoin's validator (tied to consensus by C03)",
                "ECDSA sign/verify/RFC 6979 of the model are those of C01/C02 (secp256k1, SHA-256)",
                "ECDSA unforgeability: the placeholder signature, and a signature made with a different key, do not verify"]
